@@ -131,3 +131,10 @@ package gcetcbendorsement
 //@   assigns nothing
 //@   ensures[C19] (err == nil) == (form == "bin" || form == "hex" || form == "base64" || form == "auto")
 //@   ensures[C19] err == nil ==> result0 == ite(form == "bin", 0, ite(form == "hex", 1, ite(form == "base64", 3, 4)))
+
+// C07 (total on untrusted bytes): rendering the timestamp field never dereferences a nil message - a golden measurement
+// without a timestamp yields a typed-nil *Timestamp, which is read through its nil-safe getters only.
+//@ func RenderTimestamp$1
+//@   requires opts != nil
+//@   modifies *
+//@   sweep[C07] nil
